@@ -1462,6 +1462,37 @@ impl std::fmt::Debug for DhtCoreEngine {
     }
 }
 
+/// Verification hooks (C13): read-only view of the admission counters.
+#[cfg(feature = "verif-hooks")]
+impl DhtCoreEngine {
+    /// Diversity statistics of the engine's enforcer, the per-region counts
+    /// (non-zero only, sorted by region name) and the number of routing-table entries.
+    pub async fn verif_admission_snapshot(
+        &self,
+    ) -> (crate::security::DiversityStats, Vec<(String, usize)>, usize) {
+        let stats = self.ip_diversity_enforcer.read().await.get_diversity_stats();
+        let mut regions: Vec<(String, usize)> = self
+            .geographic_diversity_enforcer
+            .read()
+            .await
+            .region_counts
+            .iter()
+            .filter(|(_, c)| **c > 0)
+            .map(|(r, c)| (format!("{r:?}"), *c))
+            .collect();
+        regions.sort();
+        let entries = self
+            .routing_table
+            .read()
+            .await
+            .buckets
+            .iter()
+            .map(|b| b.nodes.len())
+            .sum();
+        (stats, regions, entries)
+    }
+}
+
 #[cfg(test)]
 mod tests {
     use super::*;
